@@ -26,6 +26,7 @@ type linProver struct {
 	facts  []linForm // each: sum >= 0 (mathematically)
 	raw    []*Term   // comparison literals between non-constant sides, turned into facts after bounds are known
 	rawPos []bool
+	edges  []diffEdge
 }
 
 type linForm struct {
@@ -71,6 +72,9 @@ func (p *linProver) nonneg(f linForm) bool {
 		if i := p.interval(g.m, g.k); i != nil && i.lo.Sign() >= 0 {
 			return true
 		}
+	}
+	if p.diffProve(f) {
+		return true
 	}
 	if len(p.facts) <= 40 {
 		for a := range p.facts {
@@ -361,4 +365,147 @@ func (e *Engine) linearDischarge(assumps []*Term, goal *Term) bool {
 		})
 	}
 	return r
+}
+
+
+// ---- difference constraints ---------------------------------------------------------------------------
+// Facts and bounds of the shape  x - y + k >= 0  (coefficients +1/-1) form a weighted graph; a goal of the
+// same shape holds if the shortest path between its atoms is short enough (Bellman-Ford, no bound on the
+// number of facts chained). Weights are kept below 2^50 so that sums cannot overflow int64.
+
+const diffMax = int64(1) << 50
+
+type diffEdge struct {
+	from, to *Term // to - from <= w
+	w        int64
+}
+
+func smallK(k uint64) (int64, bool) {
+	v := int64(k)
+	return v, v > -diffMax && v < diffMax
+}
+
+// split f into (plus atom, minus atom, constant); nil atoms stand for zero. ok=false if f is not a difference.
+func diffShape(f linForm) (plus, minus *Term, k int64, ok bool) {
+	if len(f.m) > 2 {
+		return nil, nil, 0, false
+	}
+	k, ok = smallK(f.k)
+	if !ok {
+		return nil, nil, 0, false
+	}
+	for t, co := range f.m {
+		switch co {
+		case 1:
+			if plus != nil {
+				return nil, nil, 0, false
+			}
+			plus = t
+		case ^uint64(0):
+			if minus != nil {
+				return nil, nil, 0, false
+			}
+			minus = t
+		default:
+			return nil, nil, 0, false
+		}
+	}
+	return plus, minus, k, true
+}
+
+func (p *linProver) diffEdges() []diffEdge {
+	if p.edges != nil {
+		return p.edges
+	}
+	es := []diffEdge{}
+	for _, f := range p.facts {
+		// plus - minus + k >= 0  =>  minus - plus <= k : edge plus -> minus, weight k
+		if plus, minus, k, ok := diffShape(f); ok && (plus != nil || minus != nil) {
+			es = append(es, diffEdge{plus, minus, k})
+		}
+	}
+	for t, b := range p.bounds {
+		if t.Op == OAdd || t.Op == OConst {
+			continue
+		}
+		if b.hi != nil && b.hi.IsInt64() {
+			if v := b.hi.Int64(); v > -diffMax && v < diffMax {
+				es = append(es, diffEdge{nil, t, v}) // t - 0 <= hi
+			}
+		}
+		if b.lo != nil && b.lo.IsInt64() {
+			if v := b.lo.Int64(); v > -diffMax && v < diffMax {
+				es = append(es, diffEdge{t, nil, -v}) // 0 - t <= -lo
+			}
+		}
+	}
+	p.edges = es
+	return es
+}
+
+// diffProve: f = plus - minus + k >= 0 follows if the shortest path plus ~> minus weighs at most k.
+func (p *linProver) diffProve(f linForm) bool {
+	if n := len(f.m); n > 2 && n <= 4 {
+		// replace one atom by its bound on the pessimistic side and try again
+		for t, co := range f.m {
+			b := p.bounds[t]
+			if b == nil || t.Op == OAdd {
+				continue
+			}
+			var adj *big.Int
+			if co == 1 && b.lo != nil {
+				adj = b.lo
+			} else if co == ^uint64(0) && b.hi != nil {
+				adj = new(big.Int).Neg(b.hi)
+			}
+			if adj == nil || !adj.IsInt64() {
+				continue
+			}
+			a := adj.Int64()
+			if a <= -diffMax || a >= diffMax {
+				continue
+			}
+			g := linForm{m: map[*Term]uint64{}, k: f.k + uint64(a)}
+			for u, cu := range f.m {
+				if u != t {
+					g.m[u] = cu
+				}
+			}
+			if p.diffProve(g) {
+				return true
+			}
+		}
+		return false
+	}
+	plus, minus, k, ok := diffShape(f)
+	if !ok || (plus == nil && minus == nil) {
+		return false
+	}
+	es := p.diffEdges()
+	if len(es) == 0 || len(es) > 4000 {
+		return false
+	}
+	dist := map[*Term]int64{plus: 0}
+	for round := 0; round < 64; round++ {
+		changed := false
+		for _, e := range es {
+			d, ok := dist[e.from]
+			if !ok {
+				continue
+			}
+			nd := d + e.w
+			if nd < -diffMax*1024 {
+				return false // negative cycle or runaway: leave to the solvers
+			}
+			if old, ok := dist[e.to]; !ok || nd < old {
+				dist[e.to] = nd
+				changed = true
+			}
+		}
+		if !changed {
+			break
+		}
+	}
+	d, ok := dist[minus]
+	return ok && d <= k
 }
